@@ -186,6 +186,14 @@ def _classify_optional_result(b, local):
     return None
 
 
+def _is_error_line_to_stderr(b, t):
+    f = fn_of(t) or {}
+    if not (common.is_io_write_call(t) and f.get("name") == "write_fmt" and "Stderr" in (f.get("self_ty", "") + " ".join(f.get("args", []))) and len(t["args"]) > 1):
+        return False
+    tp = common.template_of(b, t["args"][1])
+    return bool(tp and isinstance(tp[1], str) and tp[1].startswith("xt error"))
+
+
 def _diagnostic_before_exit(b, bb, t):
     """The call writes to standard error and every path from it ends in process::exit: the documented
     'print the message, ignore a failing stderr, exit' idiom."""
@@ -325,6 +333,13 @@ def r12_1(ctx):
                     k = (crate.kind, b.id, f.get("name", "?"))
                     seen_ok[k] = seen_ok.get(k, 0) + 1
                     ctx.ob(f"handled:{crate.kind}:{b.id}:{f.get('name', '?')}:{seen_ok[k] - 1}", True, site(b, bb), "write into a fixed in-memory slice: the is_ok()/is_err() verdict is the whole outcome (fits / does not fit)", trivial=True)
+                    continue
+                if form == "dropped" and _is_error_line_to_stderr(b, t):
+                    # `xt error ...` written to stderr by a report-and-carry-on macro (`-k`): if stderr itself fails there
+                    # is nowhere left to say so; that the run still ends with status 1 is R13.1's business
+                    k = (crate.kind, b.id, f.get("name", "?"))
+                    seen_ok[k] = seen_ok.get(k, 0) + 1
+                    ctx.ob(f"handled:{crate.kind}:{b.id}:{f.get('name', '?')}:{seen_ok[k] - 1}", True, site(b, bb), "best-effort diagnostic: the 'xt error' line itself, written to stderr", trivial=True)
                     continue
                 if form == "dropped" and _diagnostic_before_exit(b, bb, t):
                     k = (crate.kind, b.id, f.get("name", "?"))
